@@ -1,4 +1,5 @@
 """Per-property configuration of the check runner (sources, compile units, budgets)."""
+import extras
 
 GUARD_NOTE = {"engines": []}
 
@@ -70,6 +71,7 @@ PROPS = {
         assumptions=["complex-step derivative of the polynomial reference is exact to rounding", "spec.hpp transcribes the documented forms"],
     ),
     "C06": dict(
+        extra=extras.c06_extra,
         src=[("props/c06.cpp", 5)],
         quick_cases=1500, thorough_cases=20000, procs=16,
         rule="cases are (Bundle type, b1, b2, a, c) from a tape over 14 fixed Bundle compositions (order, repetition, nesting depth 2-3, "
@@ -96,6 +98,7 @@ PROPS = {
         assumptions=["reference model spec.hpp", "Eigen's eulerAngles convention R = Rz(a0) Ry(a1) Rx(a2) for indices (2,1,0)"],
     ),
     "C19": dict(
+        fuzz=['c19.d2r_exp_sparse<Bundle<SE2,R2,SE3>d>', 'c19.dr_exp_sparse<SE2d>'], fuzz_seconds=150,
         src=[("props/c19.cpp", 5)],
         quick_cases=400, thorough_cases=6000, procs=16,
         rule="cases are (group, tangent, block offset i0 in 0..12, host size, extra stored entries, garbage pre-fill incl. NaN) from a tape; tangents "
@@ -108,6 +111,7 @@ PROPS = {
         assumptions=["dense dr_exp/dr_expinv/d2r_exp/d2r_expinv/ad are correct (C03-C05)"],
     ),
     "C20": dict(
+        fuzz=['c20.binary_interval_search.long', 'c20.integrate_absolute_polynomial'], fuzz_seconds=150,
         src=[("props/c20.cpp", 4)],
         quick_cases=3000, thorough_cases=60000, procs=16,
         rule="exhaustive: every basis x degree 0..10 on a 257-point grid, every monomial_integral / lgr_nodes table, every sorted range of length 0..8 over {0..4} "
@@ -153,5 +157,103 @@ PROPS = {
                    "(itself cross-checked on polynomials with exact derivatives).",
         level_note="tolerances as stated: 1e-4 first / 5e-2 second derivative relative to the largest entry, restore bound 1e-15 of the largest coefficient, verbatim = bitwise; Autodiff and Ceres modes are not installed and cannot be exercised",
         assumptions=["smooth instantiates with Scalar = long double (used only by the reference differentiator)"],
+    ),
+    "C11": dict(
+        src=[("props/c11.cpp", 5)],
+        quick_cases=250, thorough_cases=4000, procs=16,
+        rule="cases are (degree K=1..6, group in {SO3, SE2, SE3, Bundle<SO3,R2>, R3}, cumulative basis in {Bernstein, B-spline, generated matrix}, u in {0, 1} or (0,1), "
+             "differences v_i with rotation norm < pi-0.1, anchor g0) from a tape; non-trivial = 0 < u < 1 and >= 2 non-commuting differences; distinct = hash of decoded values",
+        technique="property-based testing against products of matrix exponentials carried as order-3 matrix Taylor polynomials (exact value / velocity / acceleration / jerk) and central differences of that reference for the Jacobians",
+        level_text="Generated-input search over degrees, groups, bases and evaluation points incl. the interval ends; the reference never uses the library's recursion: derivatives come from the Leibniz rule on truncated matrix Taylor series in long double.",
+        level_note="value/vel/acc/jerk 1e-9 relative to max(1,|ref|) (1e-8 through control points, whose differences pass through log), Jacobians 1e-6 (central differences h=1e-5 with a Newton-refined reference log)",
+        assumptions=["spec.hpp hat/vee transcribe the documented forms", "basis matrices are the library's own tables (verified by C20) or generated"],
+    ),
+    "C12": dict(
+        fuzz=['c12.history<K=3,SO3>', 'c12.history<K=2,SE2>', 'c12.history<K=3,R2>'], fuzz_seconds=150,
+        src=[("props/c12.cpp", 5)],
+        quick_cases=200, thorough_cases=3000, procs=16,
+        rule="cases are histories of 1..12 operations {+=, operator+, concat_global, copy, crop(local|global)} on splines built by Spline(T,V), ConstantVelocity, ConstantVelocityGoal, FixedCubic "
+             "(durations 1e-2..1e2, up to 8 segments), crop end points from {0/t_max, beyond, exactly on a knot, inside the first segment, inside any segment}; after every operation the spline is evaluated at "
+             "knots, knots +-1 ulp, interiors and out-of-range times; degrees 1..5; groups SO3, SE2, SE3, SO2, R2, R3; non-trivial = history with a crop starting in a later segment, a non-localised crop over >= 2 segments, or degree != 3",
+        technique="stateful model-based property testing: generated operation histories applied to the Spline and to a list-of-pieces reference model evaluated with the C11 oracle, compared after every step",
+        level_text="Generated histories (shrunk as one value) with an independent model of concatenation and cropping; value, velocity and acceleration compared at and around every knot after each operation; arclength against an exact piecewise antiderivative.",
+        level_note="1e-9 relative for value and velocity, 1e-8 acceleration; appended splines start where continuity requires (identity for concat_local, the current end for concat_global), as the statement presupposes a continuous curve",
+        assumptions=["model knot times use the same double arithmetic as the library (end - ta, tend + end)", "make_local is not part of the stated property"],
+    ),
+    "C13": dict(
+        fuzz=['c13.curve<K=3,SO3>', 'c13.curve<K=1,SE2>'], fuzz_seconds=150,
+        src=[("props/c13.cpp", 5)],
+        quick_cases=150, thorough_cases=2500, procs=16,
+        rule="cases are (degree K=1..6, group in {SO3, SE2, SE3, Bundle<SO3,R2>, R3}, N=K+1..30 control points from a random walk with steps < 1.5 rad, t0 in +-1e3, dt in 1e-3..1e2) from a tape; "
+             "evaluation at interiors, at interior knots from both sides (1..16 ulp), at t_min/t_max and outside; a replaced control point for locality; a left factor h for equivariance; "
+             "non-trivial = evaluation within 16 ulp of an interior knot or a locality case; distinct = hash of decoded values",
+        technique="property-based testing with domain formulas, one-sided limits at knots, bitwise locality, constant reproduction, left-equivariance, and the C11 reference on the active window with an independently built Cox-de Boor cumulative basis",
+        level_text="Generated-input search over degrees, groups, control sequences and knot-adjacent evaluation times; velocity and acceleration are compared with exact derivatives of the reference curve on the window selected by exact arithmetic.",
+        level_note="one-sided agreement within 64 eps * scale * (1 + |t|/dt) + 4 |next derivative| (t_right - t_left); interior value 1e-9, vel/acc 1e-8 relative; locality is bitwise",
+        assumptions=["cardinal B-spline N_K(u + K - i) is the i-th segment basis function (confirmed by C20)"],
+    ),
+    "C14": dict(
+        fuzz=['c14.fit_bspline<3,SO3>', 'c14.dubins_curve<3>', 'c14.fit_spline_1d<MinDerivative<6,3,3>>', 'c14.reparameterize_spline'], fuzz_seconds=150,
+        src=[("props/c14.cpp", 5)],
+        quick_cases=250, thorough_cases=4000, procs=16,
+        rule="cases are data sets of 2..40 strictly increasing time stamps (intervals 1e-2..1e2; uniform, jittered, or ratio walk with neighbouring ratio <= 1e3 / <= 10) with increments or group-valued points "
+             "(differences < 2 rad); planar targets from 8 strata (generic, far, near, straight ahead, pure arc, identity, axis aligned, on the 4R boundary) with R in 0.1..10; fit_bspline data incl. the class "
+             "'span is an integer multiple of dt'; reparameterisation of Dubins / fitted / FixedCubic-chain curves with generated bounds; non-trivial = >= 3 points with unequal intervals, target off the axes",
+        technique="property-based testing with validity predicates: re-evaluated linear constraints of the specification on the returned Bernstein coefficients, interpolation and velocity continuity, a self-validating six-word Dubins reference, coverage / monotone / onto predicates",
+        level_text="Generated-input search over sampling rates (sub-second included), specifications, groups and targets; outputs are judged by the constraints the specification states, not by a single expected answer.",
+        level_note="constraints 1e-6 relative to the natural scale of the row; interpolation 1e-9; Dubins optimality within an interval [lo,hi] that lets arc parameters within 1e-7 of 0/2pi count either way; optimality of MinDerivative is not demanded",
+        assumptions=["boundary derivative values of the specifications are the default zeros", "Dubins reference words count only if their reconstructed end pose hits the target"],
+    ),
+    "C09": dict(
+        src=[("props/c09.cpp", 4)],
+        quick_cases=500, thorough_cases=8000, procs=16, hang_is_violation=True,
+        rule="cases are (problem family, data, start, options) from a tape: linear least squares (static/dynamic, cond <= 1e3, also with analytic sparse Jacobian), noise-free exponential curve fit, "
+             "point-set alignment on SO3/SE2/SE3 (noise 0 or 1e-4, start within 1 rad), SO3 alignment with analytic dense Jacobian, (SO3,R3) two-argument and Bundle<SO3,R3> variants, rotation averaging over "
+             "std::vector<SO3d>, a constant residual; max_iter in {0,1,2,3,5,10,50,1000}, ptol/ftol in 1e-12..1e-3, Ceres or Disney strategy (fresh per call), Numerical / Default / Analytic differentiation; "
+             "degenerate starts: at the minimiser, zero residual, a zero Jacobian column, all-zero Jacobian; non-trivial = >= 2 accepted steps or a degenerate start",
+        technique="property-based testing of invariants over the callback history, a metamorphic prefix law in max_iter, and distance to a known closed-form minimiser",
+        level_text="Generated-input search over problem families, starts and option values; every run's callback history is checked for monotone cost (up to the rounding of f), bitwise final iterate and the iteration/status relations, "
+                   "and re-run with a larger iteration budget to check the prefix law; a run that does not terminate within the process budget is reported as a violation.",
+        level_note="cost monotonicity allows 2E with E = 8 eps sqrt(m) S (S = largest term magnitude inside a residual component): a purely relative slack gives false alarms (measured); convergence distance 1e-3 only for Ftol/Ptol with tolerances <= 1e-6",
+        assumptions=["Autodiff / Ceres differentiation modes are not installed", "problem generators keep starts inside the basin of the unique minimiser"],
+    ),
+    "C15": dict(
+        fuzz=['c15.history<SE3d>', 'c15.history<Galileid>'], fuzz_seconds=150,
+        src=[("props/c15.cpp", 6), ("props/c15.cpp", 1, ["-DVF_C15_ODEINT"])],
+        quick_cases=250, thorough_cases=2500, procs=16,
+        rule="cases are register-file programs of 1..200 operations {compose, inverse, exp, rplus, *=, +=, same-scalar cast, conjugation, lift/project or part assignment where the type has them} over 4 element "
+             "and 4 tangent registers, started from library constructors (Identity, exp, normalising / part-wise constructors); homogeneous chains of 1e3 (thorough: 1e4, 1e5) steps; constant-velocity integration with "
+             "six odeint steppers x {do_step, integrate_n_steps, integrate_const}, 1..1000 steps; all 9 groups + 3 Bundles (double); non-trivial = >= 10 operations on one register incl. an inverse and an exp; distinct = hash of decoded values",
+        technique="stateful property-based testing with a long-double shadow execution of the generated operation history at matrix level, invariants checked after every step",
+        level_text="Generated operation histories (shrunk as one value) executed on the library objects and on an independent extended-precision matrix model; finiteness, unit constraint, canonical sign and accuracy are checked after each step with the stated (n+1)-scaled bounds.",
+        level_note="n is the global step count of the history (>= the dependency depth of any register, i.e. the weaker bound); translation-like coordinates are kept <= 1e3 by construction (counted); log-based operations are not part of the stated operation set",
+        assumptions=["shadow arithmetic in long double accumulates < 1e-17 per operation", "Boost 1.83 odeint headers as installed"],
+    ),
+    "C16": dict(
+        fuzz=['c16.views<SE3d>', 'c16.views<Galileid>', 'c16.views<Bundle<SE2,R2,SE3>d>'], fuzz_seconds=150,
+        src=[("props/c16.cpp", 4)],
+        quick_cases=1200, thorough_cases=20000, procs=16,
+        rule="cases are sequences of 1..30 operations {assign value->Map, Map->Map, const Map->Map, construct value from view, setIdentity, *= value, *= view, += tangent, write through a sub-part view "
+             "(so2/so3/r2/r3/r3_v/r3_p/r1_t/r3<k>/part<i>/part<i>().so3()), cast, non-mutating operations, sub-part reads} on three views at generated, possibly overlapping offsets of one heap buffer with 8 guard "
+             "scalars on each side and an optional one-scalar misalignment; contents are arbitrary finite bit patterns for copies/casts and valid elements for arithmetic; 9 double and 3 float group types incl. 2 Bundles; "
+             "non-trivial = >= 2 writes through overlapping views in one sequence",
+        technique="stateful model-based property testing: a plain-array model receives the documented effect of each operation computed on value objects; the whole buffer (guards included) is compared with the model after every step; AddressSanitizer on",
+        level_text="Generated operation sequences on overlapping, unaligned views; any write outside the designated range, any difference from the value-object result beyond 4 ulp, or any out-of-bounds access (ASan) is a violation.",
+        level_note="copies and casts must be bitwise; arithmetic results may differ from value objects by 4 ulp per coefficient; a single assignment never has partially overlapping source and destination (Eigen aliasing is outside the statement)",
+        assumptions=["ROS message maps (compat/ros.hpp) cannot be built here and are not covered"],
+    ),
+    "C18": dict(
+        src=[("props/c18.cpp", 1)], san="thread",
+        quick_cases=3, quick_rounds=3, thorough_cases=6, thorough_rounds=14, procs=16,
+        engines=["rapidcheck (workload generation)", "ThreadSanitizer (g++ -fsanitize=thread)"],
+        rule="cases are thread workloads: 2..16 threads released together by a spin barrier, each running a generated list of 1..5 const operations (14 kinds: group / tangent / Bundle / Galilei functions, "
+             "rplus/rminus/dof on shared const SubManifold, AnyManifold, std::vector and variant, Spline and BSpline evaluation, sparse derivatives into thread-private outputs, diff::dr, minimize, fit_spline/fit_bspline) "
+             "20 or 200 times on shared const inputs decoded from the tape; every process runs only a few cases so that first use of function-local statics happens inside a concurrent phase; "
+             "non-trivial = >= 2 threads executing the same operations on the same objects",
+        technique="generated thread workloads under ThreadSanitizer (happens-before race detection on the executed operation pairs) plus a bitwise differential against a sequential run computed after the concurrent phase",
+        level_text="Generated workloads in fresh processes; any TSan report aborts the process and becomes a replayable violation; thread results must be bitwise identical to a sequential computation. "
+                   "Schedules are not owned by the harness: the claim covers the operation pairs that were executed, on the schedules that occurred.",
+        level_note="TSan's race detection does not depend on a particular interleaving of two executed conflicting accesses, which is why a mutable scratch member written by const functions is reported on every run; liveness and schedule-specific logic errors are out of reach",
+        assumptions=["librapidcheck is not TSan-instrumented (it is only used single-threaded to generate the workload)"],
     ),
 }
